@@ -65,6 +65,16 @@ def call(ev, inputs):
         return ("error", type(e).__name__, str(e)[:300])
 
 
+def call_positional(ev, inputs):
+    """the compiled function called with the values as POSITIONAL arguments, in alphabetical order of the field names"""
+    try:
+        return ("group", ev.run_experiment(*[inputs[k] for k in sorted(inputs)]))
+    except unroutable_error():
+        return ("unroutable",)
+    except Exception as e:
+        return ("error", type(e).__name__, str(e)[:300])
+
+
 def same_value(a, b):
     """equal value AND equal type (recursively for tuples); floats by repr"""
     if type(a) is not type(b):
